@@ -65,6 +65,9 @@ pub struct FieldM {
     /// k > 0: the options of the field are spread over two `#[arg(..)]` attributes, the first holding k of them
     #[serde(default)]
     pub arg_split: u8,
+    /// how `Option` is spelled for an optional field: 0 `Option<T>`, 1 `core::option::Option<T>`, 2 `std::option::Option<T>`
+    #[serde(default)]
+    pub opt_path: u8,
     pub default: Option<DefaultM>,
     pub value_name: Option<String>,
     pub doc: Option<DocM>,
@@ -455,6 +458,7 @@ impl Gen<'_> {
                         long_gen: false,
                         short_str: false,
                         arg_split: 0,
+                        opt_path: 0,
                         default: None,
                         value_name: None,
                         doc: None,
@@ -559,6 +563,9 @@ impl Gen<'_> {
                     if self.r.chance(15) {
                         f.arg_split = self.r.range(1, 3) as u8;
                     }
+                    if f.optional && self.r.chance(25) {
+                        f.opt_path = self.r.range(1, 2) as u8;
+                    }
                     f.doc = self.doc(&format!("{} in {}", fname, name));
                     fnames.push(fname);
                     v.fields.push(f);
@@ -655,6 +662,62 @@ pub fn generate_opts(id: usize, r: &mut R, help_names: bool) -> Decl {
                 hidden: false,
                 ident: "Raw".into(),
             });
+        }
+    }
+    // now and then a chain of nine nested sub-commands hangs off the first member ("nested to any depth": tables of a fixed
+    // size for the command path end somewhere)
+    if g.r.chance(10) {
+        let depth = g.r.range(8, 10);
+        let mut next: Option<String> = None;
+        for level in (1..=depth).rev() {
+            g.uid += 1;
+            let id = format!("D{}", g.uid);
+            let mut v = VariantM {
+                // (letters: kebab-case of an identifier with digits is outside the plain words of Appendix B)
+                ident: format!("Lv{}", (b'a' + level as u8 - 1) as char),
+                name: format!("lv{}", (b'a' + level as u8 - 1) as char),
+                explicit: false,
+                doc: g.doc(&format!("level {}", level)),
+                fields: Vec::new(),
+                sub: None,
+                tuple: false,
+            };
+            match &next {
+                Some(n) => {
+                    v.tuple = true;
+                    v.sub = Some(SubM { enum_id: n.clone(), optional: false, field: None });
+                }
+                None => {
+                    v.fields.push(FieldM {
+                        name: "file".into(),
+                        ty: "u8".into(),
+                        optional: false,
+                        kind: Kind::Pos,
+                        short: None,
+                        long: None,
+                        short_gen: false,
+                        long_gen: false,
+                        short_str: false,
+                        arg_split: 0,
+                        opt_path: 0,
+                        default: None,
+                        value_name: None,
+                        doc: None,
+                    });
+                }
+            }
+            let mut variants = vec![v];
+            if level % 3 == 0 {
+                variants.push(VariantM { ident: "Side".into(), name: "side".into(), explicit: false, doc: None, fields: Vec::new(), sub: None, tuple: false });
+            }
+            if level == 1 {
+                // the top of the chain is a variant of the first member
+                let root = g.enums.get_mut(&roots[0].enum_id).unwrap();
+                root.variants.extend(variants);
+            } else {
+                g.enums.insert(id.clone(), EnumM { id: id.clone(), variants, lt: false, help_title: None });
+                next = Some(id);
+            }
         }
     }
     let mut enums = std::mem::take(&mut g.enums);
@@ -862,7 +925,11 @@ fn emit_enum(en: &EnumM, enums: &BTreeMap<String, EnumM>, groups: &BTreeMap<Stri
                     format!("        #[arg({})]\n", a.join(", "))
                 };
                 emit_doc_around(&mut o, "        ", &f.doc, &own);
-                let ty = if f.optional { format!("Option<{}>", f.ty) } else { f.ty.clone() };
+                let ty = if f.optional {
+                    format!("{}Option<{}>", ["", "core::option::", "std::option::"][f.opt_path as usize % 3], f.ty)
+                } else {
+                    f.ty.clone()
+                };
                 o.push_str(&format!("        {}: {},\n", f.name, ty));
             }
             if let Some(s) = &v.sub {
